@@ -151,6 +151,13 @@ class CPrinter:
         env = {}
         params = []
         for p in fd.params:
+            if strip_ns(p.type.name) == 'std::string' and not p.type.ptr:
+                # a std::string parameter is represented by its (arbitrary) size, like a std::string local
+                nm = p.name or ('gm2v_unused%d' % len(params))
+                self.fire('std::string-parameter->ghost-size')
+                env[nm] = ('string', 'string')
+                params.append('size_t %s__size' % nm)
+                continue
             cty = self.ctype(p.type, for_param=True)
             nm = p.name or ('gm2v_unused%d' % len(params))
             isref = p.type.ref and not p.type.const
@@ -457,6 +464,19 @@ class CPrinter:
             return "'%s'" % e.value
         raise PrintError('expression %s not printable' % k.__name__)
 
+    def _arg_expr(self, a, env, callee, i, nargs):
+        """argument expression; an argument bound to a std::string parameter of a function of the sources becomes the size of that string (arbitrary for a temporary)"""
+        try:
+            cands = [f for f in self.w.find(callee) if len(f.params) == nargs]
+        except Exception:
+            cands = []
+        if cands and all(strip_ns(f.params[i].type.name) == 'std::string' and not f.params[i].type.ptr for f in cands):
+            if isinstance(a, Id) and env.get(a.name, ('', ''))[0] == 'string':
+                return '%s__size' % a.name
+            self.fire('std::string-temporary->ghost-size')
+            return 'gm2v_nondet_size()'
+        return self.expr(a, env)
+
     def ghost(self, name, e, env, cty='double'):
         # the value a pure callee returns on the (unchanged, const) model: a ghost constant
         lits = []
@@ -488,7 +508,7 @@ class CPrinter:
         s = strip_ns(e.f.name)
         if s in self.ghost_fns or s.split('::')[-1] in self.ghost_fns:
             return self.ghost(s.split('::')[-1], e, env)
-        args = [self.expr(a, env) for a in e.args]
+        args = [self._arg_expr(a, env, s, i, len(e.args)) for i, a in enumerate(e.args)]
         if s.startswith('std::numeric_limits') and e.f.targs and isinstance(e.f.targs[0], Type) and strip_ns(e.f.targs[0].name) == 'int':
             return {'min': '(-2147483647 - 1)', 'max': '2147483647', 'lowest': '(-2147483647 - 1)'}[s.split('::')[-1]]
         if s.startswith('std::numeric_limits'):
